@@ -598,6 +598,15 @@ func ruleC06(c *Ctx) {
 	// R3
 	nOTU, nPR := 0, 0
 	for _, t := range vc.Terms {
+		// the warnings exist for any signed value: no allocation on the way is sized by one (a negative or huge Count
+		// would make the run-time panic instead of producing the summary)
+		for _, e := range t.St.events {
+			if e.Kind == EvMakeSlice {
+				if ok, why := makeSizeSafe(t, e); !ok {
+					c.bad("C06-R3", fname, "allocation sized independently of signed values", c.P.InstrPos(e.Instr), "an allocation while computing the warnings can panic for some assertions: "+why)
+				}
+			}
+		}
 		if !t.accepting(vc.Root) {
 			continue
 		}
